@@ -97,7 +97,7 @@ fn main() {
         std::process::exit(c_proc::child_main());
     }
     let code = match prop.as_str() {
-        "C09" | "C10" | "C11" if ctx.replay.is_some() => c_sched::replay_sched(&ctx),
+        "C09" | "C10" | "C11" | "C12" if ctx.replay.is_some() => c_sched::replay_sched(&ctx),
         "C09" => c_sched::check_c09(&ctx),
         "C10" => c_sched::check_c10(&ctx),
         "C11" => c_sched::check_c11(&ctx),
@@ -134,7 +134,7 @@ fn main() {
             for (d, sch) in &ex.deadlocks {
                 println!("DEADLOCK {} confirmed={:?}", d.signature, c_sched::confirm_deadlock(&key, sch));
             }
-            for f in ex.failures.iter().take(3) { println!("FAIL {} {}", f.0, f.1); }
+            for f in ex.failures.iter().take(3) { println!("FAIL {} {} schedule={:?}", f.0, f.1, f.2); }
             0
         }
         "dbg-sched" => {
